@@ -39,9 +39,13 @@ class ClassCalc:
         self.classes = table["classes"]
         self.opt_sorts = table["optimizers"]
         self.rules = {}
+        self.table_rules = table["rules"]
         for r in table["rules"]:
             self.rules.setdefault(r["opt"], []).append(r)
         self.fired = {}
+
+    def rules_in_order(self):
+        return list(self.table_rules)
 
     # ---- pattern matching
     def match(self, pat, cls, tparams, bind):
